@@ -35,6 +35,9 @@ def scale_write(tier):
         dict(name="W_random", params=dict(C=0x20000, RP=1, LEVEL=1), items=[["apptextr", i, 100000] for i in range(1, 7)]),
         # level and restore points configured between open() and the first write(): same file for every schedule
         dict(name="W_late", params=dict(C=4096, RP=1, LEVEL=6, LATE=1), items=[can(i) for i in range(1, 301)]),
+        # the output file fails at a seeded step; afterwards more than one buffer plus one queue of data follows
+        dict(name="W_fault", params=dict(C=0x8000, RP=1, LEVEL=0, FAULT=1), items=[["apptext", i, 3000] for i in range(1, 201)]),
+        dict(name="W_faultz", params=dict(C=4096, RP=0, LEVEL=1, FAULT=1), items=[can(i) for i in range(1, 401)]),
     ]
     if tier == "thorough":
         g += [
@@ -62,7 +65,9 @@ def m2_write(tier):
     can = SC.can
     g = [dict(name="T_wmixed", params=dict(B=256, Q=3, C=100, RP=1, LEVEL=0),
               items=[can(i) if i % 4 else ["apptext", i, 150] for i in range(1, 25)]),
-         dict(name="T_wbigC", params=dict(B=64, Q=2, C=500, RP=0, LEVEL=0), items=[can(i) for i in range(1, 30)])]
+         dict(name="T_wbigC", params=dict(B=64, Q=2, C=500, RP=0, LEVEL=0), items=[can(i) for i in range(1, 30)]),
+         dict(name="T_wfault", params=dict(B=128, Q=2, C=100, RP=1, LEVEL=0, FAULT=1), fault=1,
+              items=[can(i) if i % 3 else ["apptext", i, 90] for i in range(1, 22)])]
     if tier == "thorough":
         g.append(dict(name="T_wlong", params=dict(B=512, Q=10, C=300, RP=1, LEVEL=0),
                       items=[can(i) if i % 5 else ["apptext", i, 700] for i in range(1, 120)]))
@@ -80,10 +85,13 @@ def run(rep, tier, seed):
     conc_part(rep, tier)
     SC.model_and_replay(rep, "r", SC.read_grid(tier), "c06_r_" + tier, ["DeadlockFree"], key="read", refine=True)
     SC.model_and_replay(rep, "w", SC.write_grid(tier), "c06_w_" + tier, ["DeadlockFree"], key="write", refine=True)
+    # I/O fault of the output file at any moment of any interleaving: every call still returns (DeadlockFree as
+    # invariant, Termination under weak fairness), every object is still released, the file holds a prefix
+    SC.model_and_replay(rep, "w", SC.write_fault_grid(tier), "c06_wf_" + tier, SC.FAULT_INV, key="write-fault")
     # M2: medium-size sessions under seeded schedules, every recorded step validated by TLC against the spec
     nt = 3 if tier == "quick" else 12
     SC.trace_validate(rep, "r", m2_read(tier), "c06_Tr_" + tier, seed, nt, ["QueueBounded", "NullIsLast"], key="read")
-    SC.trace_validate(rep, "w", m2_write(tier), "c06_Tw_" + tier, seed, nt, ["QueueBounded", "NoOversize"], key="write")
+    SC.trace_validate(rep, "w", m2_write(tier), "c06_Tw_" + tier, seed, nt, ["QueueBounded", "NoOversize", "FaultPrefix"], key="write")
     runs = 8 if tier == "quick" else 60
     rr, _ = SC.random_runs(rep, "r", scale_read(tier), "c06_R_" + tier, seed, runs, key="read")
     wr, _ = SC.random_runs(rep, "w", scale_write(tier), "c06_W_" + tier, seed, runs, key="write")
